@@ -302,6 +302,22 @@ Theorem C07_package_errors_positioned_partial : forall walk b name es, walker_co
 Proof. exact load_errors_positioned_partial. Qed.
 Print Assumptions C07_package_errors_positioned_partial.
 
+(* the positive side: the loader adds no error of its own.  Every import names a local package of the bundle, the
+   import relation is acyclic (a rank), every file is converted by its front end: the package loads (empty error list).
+   With the two witnesses above: the loader's own errors are exactly 'an import names no package' and 'import cycle' *)
+Theorem C07_package_of_accepted_files_loads : forall walk b rank name,
+  acyclic_closed b rank ->
+  (forall f, In f (all_files b) -> exists v lf, front_end walk true (sf_input f) = Ok (FEConverted v lf)) ->
+  find_pkg name b <> None ->
+  load_package (front_fres walk) b name = Ok [].
+Proof. exact package_of_accepted_files_loads. Qed.
+Print Assumptions C07_package_of_accepted_files_loads.
+Example C07_example_package_loads :
+  acyclic_closed ok_bundle (fun n => if N.eqb n 1 then 1%nat else 0%nat)
+  /\ load_package (front_fres demo_walk) ok_bundle 1%N = Ok [].
+Proof. exact (conj ok_bundle_acyclic ok_bundle_loads). Qed.
+Print Assumptions C07_example_package_loads.
+
 (* the import-order loader is one of the outcomes that SOME iteration order of resolveDependencies' map range
    produces (load_kinds: the order-free description the CPkgLoad correspondence compares with) *)
 Theorem C07_loader_is_an_admissible_order : forall fuel b chain name es,
@@ -326,10 +342,13 @@ Theorem C07_entity_total_links : forall e,
 Proof. exact compile_entity_total. Qed.
 Print Assumptions C07_entity_total_links.
 
-(* accepted: a closed expansion (C17: closed exactly when the user's own references resolve) with well-formed
-   fields, existing path parameters and known HTTP verbs converts without an error and every file links *)
+(* accepted: a closed expansion (C17: closed exactly when the user's own references resolve; trees_closed: the same for
+   the references inside tree-form inline schemas, which Entity.v checks on the declaration with trees_ok) with
+   well-formed fields at every depth, existing path parameters and known HTTP verbs converts without an error and
+   every file links *)
 Theorem C07_entity_accepted : forall pok cs,
-  closed cs = true -> forallb ofield_ok_deep (Entity.fields_of cs) = true -> forallb (comp_clean pok) cs = true ->
+  closed cs = true -> trees_closed (defined cs) (Entity.fields_of cs) = true ->
+  forallb ofield_ok_deep (Entity.fields_of cs) = true -> forallb (comp_clean pok) cs = true ->
   entity_verdict pok cs = VOk.
 Proof. exact entity_accepted. Qed.
 Print Assumptions C07_entity_accepted.
